@@ -59,7 +59,8 @@ package sm4
 // ---- the block-batch entry points (C02, C03): the assembly routine decides by the LENGTH OF src how
 // many blocks it processes - one batch (4 blocks, 8 with AVX2), or two batches when src is exactly
 // two batches long - and reads/writes that many bytes (assumed, read off asm_amd64.s). The Go
-// wrappers have to hand it slices for which that stays inside what the caller gave.
+// wrappers have to hand it slices for which that stays inside what the caller gave - and, on EVERY tier
+// (4-block and 8-block batches alike), both batches when the caller gave exactly two and dst has room.
 //@ func encryptBlocksAsm trusted property C02,C03
 //@   requires xk != nil && len(src) >= ite(useAVX2, 128, 64)
 //@   requires len(dst) >= ite(len(src) == 2 * ite(useAVX2, 128, 64), 2 * ite(useAVX2, 128, 64), ite(useAVX2, 128, 64))
@@ -67,11 +68,13 @@ package sm4
 
 //@ func (*sm4CipherAsm).EncryptBlocks property C02,C03
 //@   requires c != nil && c.blocksSize == ite(useAVX2, 128, 64)
+//@   assert before call encryptBlocksAsm#1: len(arg1) == ite(len(src) == 2 * c.blocksSize && len(dst) >= 2 * c.blocksSize, 2 * c.blocksSize, c.blocksSize) && len(arg2) == len(arg1) && sameslice(arg1, dst[:len(arg1)]) && sameslice(arg2, src[:len(arg1)])
 //@   panics iff len(src) < c.blocksSize || len(dst) < c.blocksSize || (sameobj(dst, src) && offof(dst) != offof(src) && offof(dst) < offof(src) + c.blocksSize && offof(src) < offof(dst) + c.blocksSize)
 //@   modifies dst[0..ite(len(src) == 2 * c.blocksSize && len(dst) >= 2 * c.blocksSize, 2 * c.blocksSize, c.blocksSize)]
 
 //@ func (*sm4CipherAsm).DecryptBlocks property C02,C03
 //@   requires c != nil && c.blocksSize == ite(useAVX2, 128, 64)
+//@   assert before call encryptBlocksAsm#1: len(arg1) == ite(len(src) == 2 * c.blocksSize && len(dst) >= 2 * c.blocksSize, 2 * c.blocksSize, c.blocksSize) && len(arg2) == len(arg1) && sameslice(arg1, dst[:len(arg1)]) && sameslice(arg2, src[:len(arg1)])
 //@   panics iff len(src) < c.blocksSize || len(dst) < c.blocksSize || (sameobj(dst, src) && offof(dst) != offof(src) && offof(dst) < offof(src) + c.blocksSize && offof(src) < offof(dst) + c.blocksSize)
 //@   modifies dst[0..ite(len(src) == 2 * c.blocksSize && len(dst) >= 2 * c.blocksSize, 2 * c.blocksSize, c.blocksSize)]
 
